@@ -113,7 +113,8 @@ func EncryptStreamTo[E typez.StrOrBytes](out io.Writer, stream io.Reader, secret
 func DecryptStreamTo[E typez.StrOrBytes](out io.Writer, stream io.Reader, secret E) error {
 	saltHeader := make([]byte, aes.BlockSize)
 
-	n, err := stream.Read(saltHeader)
+	// a Reader may return fewer bytes than asked for, or data together with io.EOF
+	n, err := io.ReadFull(stream, saltHeader)
 	if err != nil {
 		return fmt.Errorf("read header error: %w", err)
 	}
